@@ -1,6 +1,6 @@
 (* Specifications of the vers algebra, written from the property texts
    (C04, C07, C08, C09), not from the code. *)
-From Coq Require Import List Bool Arith.
+From Coq Require Import List Bool Arith Permutation.
 From UV.Base Require Import Cop Res.
 From UV.Gen Require Import Tables.
 From UV.Vers Require Import Model.
@@ -88,5 +88,10 @@ Definition wf_sorted (l : list constr) : bool :=
   | [Star] => true
   | _ => no_star l && increasing l && eq_rule l && alternate (bounds l)
   end.
+
+(* wf: a list in any order is well-formed when its version-ordered rearrangement is
+   (C07: "every version occurs once, '*' occurs only alone, and, read in version order, ...") *)
+Definition wf (cs : list constr) : Prop :=
+  cs = [Star] \/ (no_star cs = true /\ exists s, Permutation cs s /\ wf_sorted s = true).
 
 End Spec.
